@@ -30,6 +30,7 @@ typedef struct {
 } hres_t;
 
 #define MAXSLOT 100
+#define STRADDLE_HALF (1u << 20)
 #define MAXLOG 400
 typedef struct {
         uint8_t *ctx; int st, last_pending, id;
@@ -316,8 +317,17 @@ static int valid_submit(hist_t *h, int si, int start_new)
                 if (rng_below(r, 20) == 0) total += (uint32_t) rng_below(r, 40) * (uint32_t) a->block;
                 s->msglen = total; s->off = 0; s->total = 0;
                 unsigned mis = rng_below(r, 64);
-                s->msg_base = malloc(total + 64 + 1); s->msg_copy = malloc(total + 1);
-                s->msg = s->msg_base + mis;
+                s->msg_base = NULL; s->msg = NULL; s->msg_copy = malloc(total + 1);
+                if (total > 1 && total < STRADDLE_HALF && rng_below(r, 5) == 0) {
+                        /* the message lies across a 4 GiB-aligned address (one private region per context slot and thread) */
+                        static __thread uint8_t *pool[MAXSLOT]; static __thread int tried[MAXSLOT];
+                        if (!tried[si]) { tried[si] = 1; pool[si] = straddle_map(STRADDLE_HALF); }
+                        if (pool[si]) {
+                                s->msg = pool[si] + STRADDLE_HALF - 1 - rng_below(r, total - 1); out_count("messages_across_4GiB_boundary", 1);
+                                if (rng_below(r, 4) == 0) { s->msg = pool[si] + STRADDLE_HALF; out_count("messages_at_4GiB_aligned_address", 1); }     /* low 32 address bits all zero */
+                        }
+                }
+                if (!s->msg) { s->msg_base = malloc(total + 64 + 1); s->msg = s->msg_base + mis; }
                 /* content derived from the case seed only, so paired runs see identical inputs */
                 rng_t d; rng_seed(&d, mix64(h->case_seed, 0xda7a0000 + (uint64_t) h->res->submits));
                 rng_fill(&d, s->msg, total);
@@ -434,9 +444,14 @@ static void run_history(const hcfg_t *cfg, uint64_t case_seed, hres_t *res, uint
         if (h->nslot > MAXSLOT) h->nslot = MAXSLOT;
         h->mgr = arena_alloc(h, a->mgr_size, 64);
         junk_fill(h, h->mgr, a->mgr_size, 1);
+        /* in a third of the histories one context lives at a 4 GiB-aligned address (a pointer whose low 32 bits are all zero) */
+        static __thread uint8_t *cpool; static __thread int cpool_tried;
+        if (!cpool_tried) { cpool_tried = 1; cpool = a->ctx_size < 65536 ? straddle_map(65536) : NULL; }
+        int aligned_slot = cpool && rng_below(r, 3) == 0 ? (int) rng_below(r, (uint32_t) h->nslot) : -1;
         for (int i = 0; i < h->nslot; i++) {
                 slot_t *s = &h->s[i];
                 s->ctx = arena_alloc(h, a->ctx_size, 64);
+                if (i == aligned_slot) { s->ctx = cpool + 65536; out_count("contexts_at_4GiB_aligned_address", 1); }
                 junk_fill(h, s->ctx, a->ctx_size, 100 + (uint64_t) i);
                 s->id = i; s->st = ST_FRESH;
                 a->ctx_init(s->ctx);
@@ -485,6 +500,18 @@ static void run_history(const hcfg_t *cfg, uint64_t case_seed, hres_t *res, uint
                 h->res->flushes++;
         }
         res->aborted += bad;
+        static int sampled;
+        if (!__atomic_exchange_n(&sampled, 1, __ATOMIC_RELAXED)) {     /* evidence: the first history of this worker, written out */
+                clog_on = 1;
+                clog_title("%s %s via %s: history with %d contexts on a %d-lane manager, case_seed=%llu; every returned context was checked against the job model and its digest against the reference",
+                           a->name, cfg->f->name, route_name[cfg->route], h->nslot, cfg->f->lanes, (unsigned long long) case_seed);
+                for (int i = 0; i < h->nlog; i++) {
+                        logent_t *e = &h->log[i];
+                        if (e->op == 0) clog_event("submit ctx%d flags=%d len=%u%s -> returned %s%d rc=%d", e->slot, e->flags, e->len, e->reject ? " (injected invalid call)" : "", e->ret < 0 ? "none " : "ctx", e->ret, e->rc);
+                        else clog_event("flush -> returned %s%d rc=%d", e->ret < 0 ? "none " : "ctx", e->ret, e->rc);
+                }
+                clog_on = 0;
+        }
         for (int i = 0; i < h->nslot; i++) { free_segs(&h->s[i]); free(h->s[i].msg_base); free(h->s[i].msg_copy); }
         free(h->snap);
         free(h);
